@@ -312,8 +312,13 @@ def check_key_sources(ctx, alg, signer, victim):
         except Exception as e:  # noqa: BLE001
             rt = err_class(e)
         ctx.count("key-source:%s:%s" % (lab, real[0]))
+        # jwt.decode hands the JWS layer a resolver in every case (a key that is not callable is wrapped in one), so the fall-back to
+        # the token's own "jwk" header -- which the JWS layer has for an ABSENT key only -- never applies to it: in the model
+        # the key argument of the JWT layer is the resolver's result [mkey]
+        mt = m.call("jws_deserialize_compact", {"registry": registry, "allow": None, "s": token, "key": mkey if isinstance(mkey, list) else [mkey]})
+        ctx.compare("jwt_decode:key-source", dict(case, token=token), "ok" if rt == "ok" else "refused", "ok" if mt[0] == "ok" else "refused")
         for how, outcome in (("compact", real[0]), ("json", rj[0]), ("jwt", rt)):
-            if outcome == "ok" and lab not in ("none", "fixed-signer", "resolver-signer"):
+            if outcome == "ok" and lab not in (("none",) if how != "jwt" else ()) + ("fixed-signer", "resolver-signer"):
                 ctx.violation("C01:verified-under-the-tokens-own-key:%s:%s" % (how, lab),
                               "a token signed by another key and carrying that key in its jwk header was returned as verified although the caller supplied "
                               "a key source (%s) that does not yield the signer's key" % lab, case)
